@@ -8,7 +8,11 @@ parameter).  Every theorem holds for every `expand`, every plaintext column, ran
 secret, stream and error — no head-room is needed: the statements are equalities of the two
 computations, not of their values.
 
-/- FULL STATEMENT (not proved as stated): "for every compressed layout, decompress ∘ encrypt_compressed
+/- Serialisation: `glwe_compressed_serialise_decompress`, `gglwe_compressed_serialise_decompress` (the latter is also
+   the wire format of GGSWCompressed and GLWETensorKeyCompressed) are theorems in C18's byte-level model; the
+   switching / automorphism / GGLWE→GGSW / blind-rotation wrappers (extra header fields, containers of the former)
+   are tied by bytes only.
+   FULL STATEMENT (not proved as stated): "for every compressed layout, decompress ∘ encrypt_compressed
    = cell-wise standard encryption with the stored seeds".  Proved for the cell (`compressed_cell_eq`,
    any plaintext column — the GGSW case), for GLWE (`glwe_decompress_eq`) and for every matrix routine
    built on the shared loop (`compressed_cells_eq`: GGLWE, GGSW, and through them switching /
@@ -17,6 +21,7 @@ computations, not of their values.
    (after the repairs of the two findings: seeds stored in the object, decompression implemented). -/
 -/
 import Poulpy.Lemmas.CoreCmp
+import Poulpy.Lemmas.CoreSerDec
 
 namespace C19
 open CoreEnc
@@ -184,6 +189,67 @@ theorem ggsw_seed_index (b n size dsize rank dnum : Nat) (pt : Poly) (i : Nat) :
   · rintro ⟨row, hr, col, hc, rfl⟩; exact ⟨row, hr, col, hc, rfl⟩
 
 example : (Core.gglweDescs 3 2 2 1 2 2 [[1, 0], [0, 1]]).map (·.1) = [0, 2, 1, 3] := by decide
+
+/-! ### serialisation commutes with decompression (byte-level model of C18) -/
+
+open Ser CoreSer in
+/-- **`GLWECompressed`: serialise, deserialise, then decompress = decompress.**  In the byte-level model of
+C18 (`Ser.wGLWECompressed` / `Ser.rGLWECompressed`), for every well-formed sender (`base2k, rank < 2^32`,
+a 32-byte seed, a body buffer satisfying C18's `VecWF` / `Inv`) and every receiver of sufficient capacity
+(whatever it held before), in both build profiles: the write succeeds, the read consumes exactly the
+written bytes, and the compressed ciphertext the receiver then stands for — header, seed words, body
+limbs decoded from the bytes — is the sender's, so `decompress_glwe` produces the same ciphertext. -/
+theorem glwe_compressed_serialise_decompress (expand : List Nat → List Nat) (b r : Nat) (sd : Bytes) (xv rv : VecZnx) (tail : Bytes)
+    (p : Profile) (mem : Nat) (hb : b < 2 ^ 32) (hr : r < 2 ^ 32) (hsd : sd.length = 32) (f0 f1 : Nat) (g0 : SeedGroup)
+    (hw : C18.VecWF xv) (hi : xv.Inv) (hcap : xv.n * xv.cols * xv.maxSize * 8 ≤ rv.data.length) :
+    ∃ bs rs', wGLWECompressed p ⟨[b, r], [⟨1, sd⟩], [.vec xv], mem⟩ origin = .ok bs ∧
+      rGLWECompressed origin ⟨[f0, f1], [g0], [.vec rv], mem⟩ (bs ++ tail) = .ok () rs' tail ∧
+      glweOfState expand rs' = glweOfState expand ⟨[b, r], [⟨1, sd⟩], [.vec xv], mem⟩ ∧
+      (glweOfState expand rs').bind Core.decompressGlwe = (glweOfState expand ⟨[b, r], [⟨1, sd⟩], [.vec xv], mem⟩).bind Core.decompressGlwe := by
+  obtain ⟨bs, h1, h2⟩ := glwe_compressed_round_trip b r sd xv rv tail p mem hb hr hsd f0 f1 g0 hw hi hcap
+  have hact : xv.n * xv.cols * xv.size * 8 ≤ xv.data.length := by
+    obtain ⟨hs, hbuf⟩ := hi
+    exact le_trans (Nat.mul_le_mul_right 8 (Nat.mul_le_mul_left _ hs)) hbuf
+  have heq : glweOfState expand ⟨[b, r], [⟨1, sd⟩], [.vec ⟨xv.n, xv.cols, xv.size, xv.maxSize,
+        xv.data.take (xv.n * xv.cols * xv.size * 8) ++ rv.data.drop (xv.n * xv.cols * xv.size * 8)⟩], mem⟩
+      = glweOfState expand ⟨[b, r], [⟨1, sd⟩], [.vec xv], mem⟩ := by
+    simp only [glweOfState, decodeCol_overwrite xv rv.data 0 hact]
+  exact ⟨bs, _, h1, h2, heq, by rw [heq]⟩
+
+open Ser CoreSer in
+example : C18.VecWF ⟨2, 1, 1, 1, List.replicate 16 1⟩ ∧ VecZnx.Inv ⟨2, 1, 1, 1, List.replicate 16 1⟩ ∧
+    (glweOfState (fun s => s ++ [5, 6, 7]) ⟨[3, 1], [⟨1, List.replicate 32 2⟩], [.vec ⟨2, 1, 1, 1, List.replicate 16 1⟩], 0⟩).isSome := by
+  unfold C18.VecWF VecZnx.Inv; decide
+
+open Ser CoreSer in
+/-- **`GGLWECompressed` / `GGSWCompressed`: serialise, deserialise, then decompress = decompress, cell by cell.**
+The four header fields, the seed count and every stored seed (in storage order) and the active bytes of the
+matrix survive the round trip, hence every stored cell `(index, body, seed)` is the sender's and
+`decompress_glwe` of each cell — `Core.decompressCell`, the object of `compressed_cells_eq` — is unchanged. -/
+theorem gglwe_compressed_serialise_decompress (expand : List Nat → List Nat) (bb n rank : Nat)
+    (k b ds ro cnt : Nat) (sb : Bytes) (xm rm : MatZnx) (tail : Bytes) (p : Profile) (mem : Nat)
+    (hk : k < 2 ^ 32) (hb : b < 2 ^ 32) (hds : ds < 2 ^ 32) (hro : ro < 2 ^ 32) (hcnt : cnt < 2 ^ 32) (hcnt0 : 0 < cnt)
+    (hsb : sb.length = 32 * cnt) (hmem : cnt * 32 ≤ mem)
+    (f0 f1 f2 f3 : Nat) (g0 : SeedGroup) (hw : MatWF xm)
+    (hx : xm.rows * xm.colsIn * xm.n * xm.colsOut * xm.size * 8 ≤ xm.data.length)
+    (hcap : xm.rows * xm.colsIn * xm.n * xm.colsOut * xm.size * 8 ≤ rm.data.length) :
+    ∃ bs rs', wGGLWECompressed p ⟨[k, b, ds, ro], [⟨cnt, sb⟩], [.mat xm], mem⟩ origin = .ok bs ∧
+      rGGLWECompressed origin ⟨[f0, f1, f2, f3], [g0], [.mat rm], mem⟩ (bs ++ tail) = .ok () rs' tail ∧
+      cellsOfState rs' = cellsOfState ⟨[k, b, ds, ro], [⟨cnt, sb⟩], [.mat xm], mem⟩ ∧
+      (cellsOfState rs').map (fun cs => cs.map (fun c => (c.1, Core.decompressCell bb n rank expand c.2)))
+        = (cellsOfState ⟨[k, b, ds, ro], [⟨cnt, sb⟩], [.mat xm], mem⟩).map (fun cs => cs.map (fun c => (c.1, Core.decompressCell bb n rank expand c.2))) := by
+  obtain ⟨bs, h1, h2⟩ := gglwe_compressed_round_trip k b ds ro cnt sb xm rm tail p mem hk hb hds hro hcnt hcnt0 hsb hmem f0 f1 f2 f3 g0 hw hx hcap
+  have heq : cellsOfState ⟨[k, b, ds, ro], [⟨cnt, sb⟩], [.mat ⟨xm.n, xm.size, xm.rows, xm.colsIn, xm.colsOut,
+        xm.data.take (xm.rows * xm.colsIn * xm.n * xm.colsOut * xm.size * 8)
+          ++ rm.data.drop (xm.rows * xm.colsIn * xm.n * xm.colsOut * xm.size * 8)⟩], mem⟩
+      = cellsOfState ⟨[k, b, ds, ro], [⟨cnt, sb⟩], [.mat xm], mem⟩ := by
+    simp only [cellsOfState, decodeBlock_overwrite xm rm.data _ 0 hx]
+  exact ⟨bs, _, h1, h2, heq, by rw [heq]⟩
+
+open Ser CoreSer in
+example : MatWF ⟨2, 1, 1, 2, 1, List.replicate 32 1⟩ ∧
+    (cellsOfState ⟨[6, 3, 1, 1], [⟨2, List.replicate 64 2⟩], [.mat ⟨2, 1, 1, 2, 1, List.replicate 32 1⟩], 64⟩).map List.length = some 2 := by
+  unfold MatWF; decide
 
 /-! ### the GGLWE→GGSW key: two levels of branching -/
 
